@@ -7,6 +7,8 @@ import (
 	"encoding/json"
 	"errors"
 	"fmt"
+	mocker "github.com/tencent/goom"
+	"github.com/tencent/goom/zzverif/corpus/sig"
 	"math"
 	"math/rand"
 	"os"
@@ -166,6 +168,38 @@ func argPools(rng *rand.Rand, extra int) []argPool {
 	return ps
 }
 
+// apiVariadicIn: on a REAL mock of a variadic function, In({a, b}, {c, d}) registered AFTER a When condition that carries variadic
+// values (and never matches): the In clause must still accept exactly the union of the element-wise conjunctions.
+func apiVariadicIn(rng *rand.Rand, enc *json.Encoder) {
+	vals := []int{0, 1, -1, 42, 7}
+	for trial := 0; trial < 40; trial++ {
+		pick := func() int { return rng.Intn(len(vals)) }
+		ia, ib, ic, id, ix, iy := pick(), pick(), pick(), pick(), pick(), pick()
+		if trial%2 == 0 {
+			ix, iy = ia, ib
+		}
+		ev := argEv{Kind: "int", Expr: "inv", Pat: []int{ia, ib, ic, id}, Arg: ix, Arg2: iy, Same: true, Res: []bool{},
+			PatS: fmt.Sprint("mock of sig.V1: ", []int{vals[ia], vals[ib], vals[ic], vals[id]}), ArgS: fmt.Sprint([]int{vals[ix], vals[iy]})}
+		b := mocker.Create()
+		p := catch(func() {
+			wh := b.Func(sig.V1).Return(-1)
+			wh = wh.When(1000, 2000, 3000).Return(-2) // a condition with variadic values, registered first, matching no call
+			wh.In([]interface{}{vals[ia], vals[ib]}, []interface{}{vals[ic], vals[id]}).Return(9)
+			for k := 0; k < 3; k++ {
+				ev.Res = append(ev.Res, sig.V1(vals[ix], vals[iy]) == 9)
+			}
+		})
+		if p != "" {
+			ev.Err = p
+			if len(ev.Err) > 100 {
+				ev.Err = ev.Err[:100]
+			}
+		}
+		catch(func() { b.Reset() })
+		enc.Encode(ev)
+	}
+}
+
 func goEqual(kind string, a, b interface{}) bool {
 	if kind == "func" {
 		va, vb := reflect.ValueOf(a), reflect.ValueOf(b)
@@ -278,6 +312,7 @@ func TestVerifArgAlgebra(t *testing.T) {
 	bw := bufio.NewWriterSize(of, 1<<20)
 	defer bw.Flush()
 	enc := json.NewEncoder(bw)
+	apiVariadicIn(rng, enc)
 	for _, p := range argPools(rng, envIntOr("VERIF_EXTRA", 4)) {
 		curPoolIface = p.typ.Kind() == reflect.Interface
 		n := len(p.vals)
